@@ -82,7 +82,9 @@ def parseOp (j : Json) : R Json := do
     match r with
     | .error e => obj [("exc", Json.str (errName e))]
     | .ok (a, b, m) => obj [("x", ofList (ofList ofRat) a), ("y", ofList (ofList ofRat) b), ("mask", ofMask m)]
-  pure (obj [("coded", show1 (parseCoded xs ys)), ("legacy", show1 (parseLegacy xs ys))])
+  -- both source copies, each with its `raise` tests generated from the source text
+  pure (obj [("coded", show1 (parseOf .compare xs ys)), ("utils", show1 (parseOf .utils xs ys)),
+             ("legacy", show1 (parseLegacy xs ys))])
 
 /-- `_mean(vectors, weights)` exactly: as coded and as specified -/
 def meanOp (j : Json) : R Json := do
@@ -178,6 +180,15 @@ def regressOp (j : Json) : R Json := do
   let V := if cov then getV n sg else []
   -- `pool_rdm(data, method=method, sigma_k=sigma_k)` of util/pooling.py: the same V as the fit
   let y := poolRdm .pooling pm V data
+  let nn ← asBool (fldD j "nn" (Json.bool false))
+  if nn then
+    -- `fit_regress_nn`: the active-set loop of C08's model on the reduced normal equations
+    let eps ← fld j "eps" >>= asFloat
+    match fitRegressNN eps fm V ridge normalize A y with
+    | .error e => pure (obj [("exc", Json.str (errName e))])
+    | .ok (t, exited) => pure (obj [("theta", ofList ofFloat t), ("pooled", ofList ofOptF y),
+                                    ("exited", Json.bool exited)])
+  else
   match fitRegress fm V ridge normalize A y with
   | .error e => pure (obj [("exc", Json.str (errName e))])
   | .ok t => pure (obj [("theta", ofList ofFloat t), ("pooled", ofList ofOptF y)])
